@@ -31,7 +31,7 @@ from .realeval import ev, close
 from .c15 import write_nl, snapshot, _Sink
 
 INVS = {
-    "s2": ["InvS2ContribExact", "InvS2ContribSymmetric", "InvS2ClassConsistent"],
+    "s2": ["InvS2ContribExact", "InvS2ContribSymmetric", "InvS2ClassConsistent", "InvS2EdgeFamily"],
     "tetra": ["InvTeRegularIsPerfect", "InvTeFourAreNearest", "InvTeDiamond"],
     "nematic": ["InvNmSymTraceless", "InvNmTraceEqualsEig", "InvNmRawIsOne", "InvNmInUnitRange", "InvNmUnitVectors"],
     "gyr": ["InvGyKappaIdentity", "InvGyRanges", "InvGyShiftInvariant", "InvGyRotatedEigen", "InvGyAxisKinds"],
@@ -81,8 +81,7 @@ def _snaps(frames, H, S, types=None, timesteps=None):
 
 def replay_s2(chk, lib, case, tmp, tag="A"):
     from PyMatterSim.static.pairentropy import S2
-    small = {k: case[k] for k in ("m", "id", "d", "H", "ppp", "S", "fr", "types", "sig", "rn", "rd", "nd", "savegr",
-                                  "contrib", "tie", "cls")}
+    small = case
     snaps = _snaps(case["fr"], case["H"], case["S"], types=case["types"])
     sig = np.array([[s[0] / s[1] for s in row] for row in case["sig"]], dtype=float)
     ppp = np.array(case["ppp"])
@@ -123,6 +122,8 @@ def replay_s2(chk, lib, case, tmp, tag="A"):
                 continue
             ex = {"frame": f, "particle": i, "class": cl, "contributing": case["contrib"][f][i]}
             term = case["s2"][f][i]
+            if case.get("edge") and case["edge"][f][i]:
+                chk.extra["s2_particles_with_neighbour_exactly_at_rmax"] = chk.extra.get("s2_particles_with_neighbour_exactly_at_rmax", 0) + 1
             if cl == "zero":
                 # some bin has g = 0 exactly in floating point: g ln g is continued by its limit 0
                 g_ = _cmp(chk, "S2Definition:bins-with-g=0", small, float(res[f, i]), term, f"s2[{f}][{i}]", extra=ex,
@@ -159,17 +160,18 @@ def replay_s2(chk, lib, case, tmp, tag="A"):
 
 def replay_tetra(chk, lib, case, tmp, tag="A"):
     from PyMatterSim.static.geometric import q8_tetrahedral
-    small = {k: case[k] for k in ("m", "id", "kind", "H", "ppp", "S", "pos")}
-    small["four"] = [r["four"] for r in case["rows"]]
+    small = case
     n = len(case["pos"])
-    snaps = _snaps([case["pos"]], case["H"], case["S"])
+    # every third case is rendered as a two-frame trajectory holding the configuration twice
+    nfr = 2 if case["id"] % 3 == 0 else 1
+    snaps = _snaps([case["pos"]] * nfr, case["H"], case["S"])
     out = os.path.join(tmp, "tetra.npy")
     ok_, res = _call(chk, "TetrahedralDefinition", small, q8_tetrahedral, snaps, ppp=np.array(case["ppp"]), outputfile=out,
                      finding_key=KEY_TETRA_N5 if n == 5 else None)
     if not ok_:
         return
     res = np.asarray(res)
-    if res.shape != (1, n):
+    if res.shape != (nfr, n):
         chk.violation("Tetrahedral:shape", {**small, "shape": list(res.shape)})
         return
     asserted = 0
@@ -178,17 +180,19 @@ def replay_tetra(chk, lib, case, tmp, tag="A"):
             chk.tie()
             continue
         asserted += 1
-        if row["perfect"]:
-            # "exactly one for perfect tetrahedral coordination"
-            if not _cmp(chk, "PerfectTetrahedronIsOne", small, float(res[0, i]), row["q"], f"q[{i}]",
-                        tol=dict(atol=1e-12, rtol=0), extra={"particle": i}):
+        for f in range(nfr):
+            if row["perfect"]:
+                # "exactly one for perfect tetrahedral coordination"
+                if not _cmp(chk, "PerfectTetrahedronIsOne", small, float(res[f, i]), row["q"], f"q[{f}][{i}]",
+                            tol=dict(atol=1e-12, rtol=0), extra={"particle": i, "four": row["four"]}):
+                    return
+            elif not _cmp(chk, "TetrahedralDefinition", small, float(res[f, i]), row["q"], f"q[{f}][{i}]",
+                          extra={"particle": i, "four": row["four"]}):
                 return
-        elif not _cmp(chk, "TetrahedralDefinition", small, float(res[0, i]), row["q"], f"q[{i}]", extra={"particle": i}):
-            return
     if asserted:
         chk.ok((tag, "tetra", case["id"], str(case["pos"]), str(case["ppp"]), case["S"]),
                sample={"kind": "tetra", "H": case["H"], "ppp": case["ppp"], "S": case["S"], "pos": case["pos"],
-                       "four": small["four"], "perfect": [r["perfect"] for r in case["rows"]]})
+                       "four": [r["four"] for r in case["rows"]], "perfect": [r["perfect"] for r in case["rows"]]})
         chk.extra["tetra_particles_asserted"] = chk.extra.get("tetra_particles_asserted", 0) + asserted
 
 
@@ -198,7 +202,7 @@ def replay_tetra(chk, lib, case, tmp, tag="A"):
 
 def replay_nematic(chk, lib, case, tmp, tag="A"):
     from PyMatterSim.static.nematic import NematicOrder
-    small = {k: case[k] for k in ("m", "id", "C", "fr", "nl", "Nmax")}
+    small = case
     C = case["C"]
     T, n = len(case["fr"]), len(case["fr"][0])
     ori = _snaps(case["fr"], [[10, 0], [0, 10]], C)
@@ -253,7 +257,7 @@ def replay_nematic(chk, lib, case, tmp, tag="A"):
 
 def replay_gyr(chk, lib, case, tmp, tag="A"):
     from PyMatterSim.static.shape import gyration_tensor
-    small = {k: case[k] for k in ("m", "id", "kind", "S", "cloud", "d")}
+    small = case
     cloud = np.array(case["cloud"], dtype=float) / case["S"]
     ok_, res = _call(chk, "GyrationDefinition", small, gyration_tensor, cloud.copy())
     if not ok_:
@@ -318,7 +322,7 @@ def gen_records(rng, nrec):
                          "fr": [[[rng.randint(0, L[k]) for k in range(d)] for _ in range(n)]],
                          "types": [rng.randint(1, K) for _ in range(n)] if K > 1 else [1] * n,
                          "sig": [[[rng.choice([1, 2, 3]), rng.choice([5, 10])] for _ in range(K)] for _ in range(K)],
-                         "rn": 1, "rd": rng.choice([10, 20, 5]), "nd": rng.randint(20, 40), "savegr": False})
+                         "rn": 1, "rd": rng.choice([10, 5]), "nd": rng.randint(16, 36), "savegr": False})
             r = recs[-1]
             for t in set(range(1, K + 1)) - set(r["types"]):      # every type present
                 r["types"][t - 1] = t
@@ -397,10 +401,17 @@ def run(tier, replay=None):
     try:
         if replay:
             case = common.load_replay(replay)["case"]
-            print(json.dumps({k: v for k, v in case.items() if k not in ("s2", "g", "rows", "order", "tensor")})[:3000])
-            print("clause-specific values: where=%s observed=%s expected=%s" % (case.get("where"), case.get("observed"),
-                                                                               case.get("expected")))
-            return 0
+            sink = _Sink()
+            sink.extra = {}
+            sink.ok = lambda *a, **k: None
+            sink.tie = lambda *a, **k: None
+            REPLAY[case["m"]](sink, lib, case, tmp)
+            print(json.dumps({k: v for k, v in case.items() if k not in ("s2", "g", "rows", "order", "tensor", "rbins")})[:3000])
+            for clause, info in sink.items:
+                print(f"clause {clause}: {info.get('where', '')} observed {info.get('observed')} expected {info.get('expected')} "
+                      f"{info.get('error', '')}")
+            print("replay:", "VIOLATION" if sink.items else "ok")
+            return 1 if sink.items else 0
 
         def tlc(model):
             return model, run_tlc_sharded("MC_LocalOrder",
